@@ -267,7 +267,26 @@ partial def compileNode (env : CEnv) (n : Node) : CM (List Frag) := do
     | some (_, kids) => out := out ++ [.act true false .else_] ++ (← compileNodes env kids)
     | none => pure ()
     pure (out ++ [.act true false .end_])
-  | .mixinDef .. | .mixinCall .. | .mixinBlock => .error (.domain "mixins")
+  | .mixinDef .. => pure []          -- definitions are collected separately (renderState.mixin)
+  | .mixinBlock => pure [.act true true (.template (.var "block") none)]
+  | .mixinCall name args attrs kids => do
+    let targs ← args.mapM fun a => do
+      match ← compileExpr env a with
+      | some t => pure t
+      | none => pure nullCall
+    let tattrs ← attrs.mapM fun a => do
+      match ← compileExpr env a.val with
+      | some t => pure [TExpr.lit (.str a.name), t]
+      | none => .error (.domain "null attribute on a mixin call")
+    let argArr := TExpr.fcall "__op__array" targs
+    let attrMap := TExpr.fcall "__op__map_params" tattrs.flatten
+    -- the block (if its rendering is non-empty) is defined as its own template; the counter is threaded by position
+    let sub ← compileNodes env kids
+    if sub.isEmpty then
+      pure [.act false false (.template (.lit ("mixin_" ++ name)) (some (.fcall "__op__array" [argArr, attrMap, nullCall])))]
+    else
+      pure [.blockDef name sub,
+            .act false false (.template (.lit ("mixin_" ++ name)) (some (.fcall "__op__array" [argArr, attrMap, .fcall "__freeze" [.lit (.str ("\x00" ++ name))]])))]
 
 partial def compileNodes (env : CEnv) (ns : List Node) : CM (List Frag) := do
   pure (← ns.mapM (compileNode env)).flatten
@@ -291,6 +310,7 @@ end
 /-- merge adjacent texts, then apply the trim markers as lexText / lexLeftDelim / lexRightDelim do -/
 def mergeTexts : List Frag → List Frag
   | .text a :: .text b :: rest => mergeTexts (.text (a ++ b) :: rest)
+  | .blockDef _ _ :: rest => mergeTexts rest
   | f :: rest => f :: mergeTexts rest
   | [] => []
 termination_by l => l.length
@@ -316,6 +336,7 @@ partial def parseList (fs : List Frag) : CM (List TNode × Term × List Frag) :=
   | .text s :: rest => do
     let (ns, t, r) ← parseList rest
     pure ((if s.isEmpty then ns else .text s :: ns), t, r)
+  | .blockDef _ _ :: rest => parseList rest
   | .act _ _ a :: rest =>
     match a with
     | .print e esc => do let (ns, t, r) ← parseList rest; pure (.print e esc :: ns, t, r)
@@ -355,12 +376,78 @@ structure Compiled where
   main : List TNode
   defs : List (String × List TNode)
 
-def compileDoc (env : CEnv) (doc : List Node) : CM Compiled := do
-  let frags ← compileNodes env doc
-  let frags := applyTrims (mergeTexts frags)
-  let (main, t, _) ← parseList frags
+/-- replace the placeholder block name in the `__freeze` of a call action -/
+partial def renameFreeze (newName : String) : TExpr → TExpr
+  | .fcall "__freeze" _ => .fcall "__freeze" [.lit (.str newName)]
+  | .fcall n args => .fcall n (args.map (renameFreeze newName))
+  | .field r n args => .field (renameFreeze newName r) n (args.map (renameFreeze newName))
+  | e => e
+
+/-- hoist the blocks of mixin calls into their own templates, numbering them in rendering order
+    (`block_<mixin>_<counter>`, renderState.mixincounter) -/
+partial def hoistBlocks : List Frag → Nat → List Frag × List (String × List Frag) × Nat
+  | [], k => ([], [], k)
+  | .blockDef m body :: rest, k =>
+    -- the block's own body is rendered first (Block.Render before the counter is read)
+    let (body', defs1, k1) := hoistBlocks body k
+    let name := s!"block_{m}_{k1}"
+    let rest' := match rest with
+      | .act lt rt (.template nm (some a)) :: r => Frag.act lt rt (.template nm (some (renameFreeze name a))) :: r
+      | r => r
+    let (rest'', defs2, k2) := hoistBlocks rest' (k1 + 1)
+    (rest'', defs1 ++ [(name, body')] ++ defs2, k2)
+  | f :: rest, k =>
+    let (rest', defs, k') := hoistBlocks rest k
+    (f :: rest', defs, k')
+
+/-- all mixin definitions of the document in rendering order; the first definition of a name wins -/
+partial def collectMixinDefs : List Node → List (String × List String × List Node)
+  | [] => []
+  | n :: rest =>
+    let here := match n with
+      | .mixinDef name params kids => [(name, params, kids)] ++ collectMixinDefs kids
+      | .tag _ _ _ _ kids | .each _ _ _ kids | .while _ kids | .mixinCall _ _ _ kids => collectMixinDefs kids
+      | .cond _ thn els => collectMixinDefs thn ++ (match els with | some e => collectMixinDefs e | none => [])
+      | .case _ whens => (whens.map fun w => collectMixinDefs w.2).flatten
+      | _ => []
+    here ++ collectMixinDefs rest
+
+def trimMarker : Frag := .act true true (.print (.lit (.str "")) false)
+
+def parseBody (frags : List Frag) : CM (List TNode) := do
+  let (ns, t, _) ← parseList (applyTrims (mergeTexts frags))
   match t with
-  | .eof => pure { main := main, defs := [] }
+  | .eof => pure ns
   | _ => .error (.parse "unexpected {{end}} / {{else}}")
+
+def compileDoc (env : CEnv) (doc : List Node) : CM Compiled := do
+  let mainFrags ← compileNodes env doc
+  -- mixin definitions: rendered where they are met; the first definition of a name wins
+  let mdefs := collectMixinDefs doc
+  let mdefs := mdefs.foldl (fun acc d => if acc.any (·.1 == d.1) then acc else acc ++ [d]) []
+  let mfrags ← mdefs.mapM fun (name, params, kids) => do
+    let body ← compileNodes env kids
+    let ps := if params.isEmpty then [""] else params     -- strings.Split("", ",") = [""]
+    let head : List Frag :=
+      [.act true false (.assign "attributes" (.fcall "__tryindex" [.dot, .lit (.int 1)])), .text "\n",
+       .act true false (.assign "__args__" (.fcall "__tryindex" [.dot, .lit (.int 0)])), .text "\n",
+       .act true false (.assign "block" (.fcall "__tryindex" [.dot, .lit (.int 2)])), .text "\n"] ++
+      (ps.zipIdx.map fun (p, i) => Frag.act true true (.assign p (.fcall "__tryindex" [.var "__args__", .lit (.int i)])))
+    pure (name, head ++ [.text "\n"] ++ body ++ [.text "\n", .act true false (.print (.lit (.str "")) false)])
+  -- number the blocks: main template first, then the mixin bodies in definition order?  No: in RENDERING order —
+  -- a definition's body is rendered when the definition node is met. The names only have to be unique and consistent,
+  -- which any numbering guarantees; the model numbers main first.
+  let (main', bdefs0, k0) := hoistBlocks mainFrags 0
+  let (mfrags', bdefs, _) := mfrags.foldl (fun (acc : List (String × List Frag) × List (String × List Frag) × Nat) (d : String × List Frag) =>
+    let (body', bd, k') := hoistBlocks d.2 acc.2.2
+    (acc.1 ++ [(d.1, body')], acc.2.1 ++ bd, k')) ([], bdefs0, k0)
+  let hasDefs := !mfrags'.isEmpty || !bdefs.isEmpty
+  -- `\n{{- define …` after the main template: its trailing white space is trimmed when anything follows
+  let main ← parseBody (if hasDefs then main' ++ [.text "\n", trimMarker] else main')
+  let blockTpls ← bdefs.mapM fun (name, body) => do
+    pure (name, ← parseBody ([trimMarker, .text "\n"] ++ body ++ [.text "\n", trimMarker]))
+  let mixinTpls ← mfrags'.mapM fun (name, body) => do
+    pure ("mixin_" ++ name, ← parseBody ([.act true false (.print (.lit (.str "")) false), .text "\n"] ++ body))
+  pure { main := main, defs := blockTpls ++ mixinTpls }
 
 end Pug.Tpl
